@@ -1340,6 +1340,13 @@ class ConnectionBase(object):
             #print("drop duplicated typ=%s seq=%s (%s)" % (pkt_typ, msgseq, name))
             return
 
+        # a hello is only meaningful before a session key exists. the header
+        # type of a datagram says nothing about the types of the messages
+        # inside a multi message datagram: a connected peer must not be able
+        # to restart the key exchange (new key, new token) in mid session
+        if self.session_key_bytes and pkt_typ in (PacketType.CLIENT_HELLO, PacketType.SERVER_HELLO):
+            return
+
         if pkt_typ == PacketType.CLIENT_HELLO:
             self._recvClientHello(msg)
 
